@@ -378,6 +378,9 @@ def fixed():
                    (NATIVE["i64"], "u64"), (U32, "le::U64"), (U16, "be::U32"), (c_like, "u8"), (NATIVE["i32"], "u16")]:
         z.register(flat_vec(t, l), msg=(t.rust, l) in {("i32", "u16"), ("u64", "u8")})
     z.register(flat_vec(UNIT, "u8"))
+    # zero-sized items with a 64-bit length: a peer-controlled length must not turn validation into an endless loop
+    z.register(T("FlatVec<(), u64>", sized=False, zst=False))
+    z.register(T("FlatVec<[u16; 0], usize>", sized=False, zst=False))
     z.register(flat_vec(array(U8, 0), "u16"))
     for (t, l) in [(U32, "u8"), (U8, "u8"), (U64, "u16"), (sized_struct, "u16"), (BOOL, "u8"), (flat_string("u8"), "u8"),
                    (flat_string("u16"), "u32"), (flat_vec(U32, "u16"), "u16"), (flat_vec(U64, "u8"), "u8"), (flat_vec(BOOL, "u8"), "u16"),
